@@ -7,6 +7,8 @@ Model of the bailiwick guards and filters of sdns (property C07).  Core Lean onl
   middleware/resolver/resolver.go  checkGlueRR, extractDelegationInfo, progressingReferral,
                                    validReferral, filterAuthorityRecords, clearAdditional
   middleware/cache/cache.go        filterCacheableAnswer
+  middleware/resolver/utils.go     searchAddrs
+  middleware/cache/cache.go        additionalAnswer, searchAdditionalAnswer, respCnameHasType (the alias chase)
   internal/dnsutil/rrset.go        NameInZone, escapedDot, FilterRRsToZone (as called by Resolver.answer)
 
 Names are presentation strings as the wire codec produces them (ASCII, miekg
@@ -340,5 +342,124 @@ answer section: `Resolver.answer` filters them to the asked zone
 other sections, and `Cache.additionalAnswer` only ever *appends* records it
 resolved itself through the target's own servers. -/
 def relayedFromUpstream (zone : Str) (answer : List AnsRR) : List AnsRR := filterToZone zone answer
+
+/-! ### `searchAddrs` (name-server address sub-lookups) -/
+
+structure AddrRR where
+  owner : Str
+  rtype : Nat        -- 1 = A, 28 = AAAA, anything else is skipped
+  addr : IP
+deriving Repr, DecidableEq
+
+/-- `searchAddrs(msg)` over `msg.Answer`: an A record contributes its usable
+address when that is an IPv4 address, an AAAA record its usable address
+(whatever family it unmaps to); owners are not looked at — the section has
+already been cut down to the asked zone by `Resolver.answer`. -/
+def searchAddrs (locals : List IP) (answer : List AddrRR) : List IP :=
+  answer.filterMap fun r =>
+    if r.rtype = 1 then
+      match usableAddr locals r.addr with
+      | some a => if a.length == 4 then some a else none
+      | none => none
+    else if r.rtype = 28 then usableAddr locals r.addr
+    else none
+
+/-! ### `Cache.additionalAnswer` (the alias chase) -/
+
+/-- A record as the chase sees it: owner, type and, for a CNAME, its target. -/
+structure ChRR where
+  owner : Str
+  rtype : Nat
+  target : Str := []
+deriving Repr, DecidableEq
+
+def typeCNAME : Nat := 5
+def typeDS : Nat := 43
+def rcodeServFail : Nat := 2
+def rcodeNXDomain : Nat := 3
+
+/-- What the sub-pipeline (`internalExchange`) returned for one target. -/
+structure SubResp where
+  rcode : Nat
+  answer : List ChRR
+  nsCount : Nat          -- size of the authority section
+deriving Repr, DecidableEq
+
+inductive SubResult
+  | limit                -- ErrRecursionWorkLimit / ErrResolutionAttemptLimit
+  | fail                 -- any other error (no response)
+  | resp (r : SubResp)
+deriving Repr, DecidableEq
+
+/-- The outer message as far as the chase changes it, plus the targets it asked. -/
+structure ChaseOut where
+  rcode : Nat
+  answer : List ChRR
+  asked : List Str := []
+deriving Repr, DecidableEq
+
+/-- `searchAdditionalAnswer`'s walk: the target of the last CNAME of a section. -/
+def lastCnameTarget : List ChRR → Option Str
+  | [] => none
+  | r :: t => match lastCnameTarget t with
+    | some x => some x
+    | none => if r.rtype = typeCNAME then some r.target else none
+
+inductive Scan
+  | answered                 -- a record of the query type comes first: nothing to chase
+  | selfLoop                 -- a CNAME pointing back at the question name
+  | target (t : Option Str)  -- the last CNAME target seen (none: no alias at all)
+deriving Repr, DecidableEq
+
+/-- The first loop of `additionalAnswer` over `msg.Answer`. -/
+def scanAnswer (qname : Str) (qtype : Nat) : List ChRR → Option Str → Scan
+  | [], cur => Scan.target cur
+  | r :: t, cur =>
+    if r.rtype = qtype then Scan.answered
+    else if r.rtype = typeCNAME then
+      if r.target = qname then Scan.selfLoop else scanAnswer qname qtype t (some r.target)
+    else scanAnswer qname qtype t cur
+
+def servFail (asked : List Str) : ChaseOut := { rcode := rcodeServFail, answer := [], asked := asked }
+
+/-- The `lookup:` loop of `additionalAnswer`; `n + 1` = the value of
+`cnameDepth` on entry to the body. -/
+def chaseLoop (resolve : Str → SubResult) (qname : Str) (qtype : Nat) :
+    Nat → Str → ChaseOut → ChaseOut
+  | 0, _, msg => msg
+  | n + 1, target, msg =>
+    if msg.asked.contains target then servFail msg.asked
+    else
+      let asked := msg.asked ++ [target]
+      match resolve target with
+      | SubResult.limit => servFail asked
+      | SubResult.fail =>
+        if target = qname then servFail asked else { msg with asked := asked }
+      | SubResult.resp r =>
+        let merged := !r.answer.isEmpty || r.nsCount > 0
+        let msg' : ChaseOut :=
+          { msg with answer := if merged then msg.answer ++ r.answer else msg.answer, asked := asked }
+        let next : Str := if merged then (lastCnameTarget r.answer).getD [] else target
+        let child : Bool := merged && (lastCnameTarget r.answer).isSome
+        if r.rcode = rcodeNXDomain then { msg' with rcode := rcodeNXDomain }
+        else if r.rcode ≠ 0 then servFail asked
+        else if next = qname then servFail asked
+        else if child && n > 0 && !(r.answer.any fun x => x.rtype == qtype) then
+          chaseLoop resolve qname qtype n next msg'
+        else msg'
+
+/-- `Cache.additionalAnswer(ctx, msg)` for a plain context (no validated
+negative-proof marker, no cancelled context): the outer message's rcode and
+answer section afterwards, and the alias targets it sent to the sub-pipeline. -/
+def additionalAnswer (resolve : Str → SubResult) (qname : Str) (qtype : Nat) (rcode : Nat)
+    (answer : List ChRR) : ChaseOut :=
+  let msg : ChaseOut := { rcode := rcode, answer := answer }
+  if qtype = typeCNAME ∨ qtype = typeDS then msg
+  else if rcode = rcodeNXDomain then msg
+  else match scanAnswer qname qtype answer none with
+    | Scan.answered => msg
+    | Scan.selfLoop => servFail []
+    | Scan.target none => msg
+    | Scan.target (some t) => chaseLoop resolve qname qtype 10 t msg
 
 end SdnsVerif.Model.Bailiwick
